@@ -46,6 +46,10 @@ def cases(tier, seed):
     for s, st in itertools.product([0.1, -0.3, 1.], [0.1, 1. / 3, -0.5]):
         for n in itertools.product((1, 2, 3, 4), repeat=2):
             yield dict(kind='ff2', start=s, step=st, n=list(n))
+    # three-axis grids and two-angle tables through the command line: order of the printed blocks / rows
+    for s, st in itertools.product([0.1, -0.3], [0.1, 1. / 3, -0.5]):
+        for n in ((2, 3, 2), (3, 1, 2), (1, 2, 3), (2, 2, 1), (4, 3, 2)):
+            yield dict(kind='cli3', start=s, step=st, n=list(n))
     # through the command line + report
     rc = [1, 2, 3, 4, 7, 10] if tier == 'quick' else [1, 2, 3, 4, 5, 7, 10, 13, 21, 30]
     for s in STARTS[:5]:
@@ -205,4 +209,39 @@ def evaluate(c):
                         if not (close_print(rows[i][0], e[0]) and close_print(rows[i][1], e[1])):
                             viol.append(('FF-REPORT-ANGLE', 'row %d printed %s expected %s' % (i, rows[i][:2], e)))
                         i += 1
+    elif k == 'cli3':
+        start = [c['start'], c['start'] + 0.25, c['start'] - 0.5]
+        inc = [c['step'], -c['step'], c['step'] * 2]
+        n = c['n']
+        th, ph = (c['start'] * 10 + 40, c['step'] * 20, n[0]), (c['start'] * 100, -c['step'] * 30, n[1] + 1)
+        kind, r, out, err = cli.run_main(WIRE + ['--near-field=' + ','.join(repr(x) for x in start + inc) + ',%d,%d,%d' % tuple(n), '--option=near-field',
+                                                 '--option=far-field', '--option=far-field-absolute', '--theta=%r,%r,%d' % th, '--phi=%r,%r,%d' % ph])
+        ev += 1
+        canon.append('cli3|%r|%r|%s' % (c['start'], c['step'], n))
+        nontriv.append(True)
+        if kind != 'ret' or r is not None:
+            viol.append(('CLI-FAIL', 'main returned %s %s: %s' % (kind, r, (out + err)[-200:])))
+        else:
+            exp = expect_nf(start, inc, n)
+            blocks = report.parse_near(out)
+            for fk in ('E', 'H'):
+                pts = [b['point'] for b in blocks if b['kind'] == fk]
+                if len(pts) != len(exp):
+                    viol.append(('NF-REPORT-COUNT', '%s blocks: %d, expected %d for n=%s' % (fk, len(pts), len(exp), n)))
+                    continue
+                for i, (p_, e) in enumerate(zip(pts, exp)):
+                    if not all(close_print(a, b) for a, b in zip(p_, e)):
+                        viol.append(('NF-REPORT-ORDER', '%s point %d printed %s expected %s (X fastest, then Y, then Z) for n=%s' % (fk, i, p_, tuple(e), n)))
+                        break
+            for nm, rows in (('dBi', report.parse_far_db(out)), ('V/m', report.parse_far_abs(out))):
+                want = [(th[0] + i * th[1], ph[0] + j * ph[1]) for j in range(ph[2]) for i in range(th[2])]
+                if len(rows) != len(want):
+                    viol.append(('FF-REPORT-COUNT', '%s table: %d rows, expected %d' % (nm, len(rows), len(want))))
+                    continue
+                # the V/m table prints its angle columns with two decimals
+                cp = close_print if nm == 'dBi' else (lambda a, b: abs(a - b) <= 0.00501)
+                for i, (rw, e) in enumerate(zip(rows, want)):
+                    if not (cp(rw[0], e[0]) and cp(rw[1], e[1])):
+                        viol.append(('FF-REPORT-ANGLE', '%s table row %d printed %s expected %s' % (nm, i, tuple(rw[:2]), e)))
+                        break
     return dict(viol=viol[:6], canon=canon, nontriv=nontriv, trans=ev, traces=ev, evals=ev, outcome=k, dev=0.0)
